@@ -41,7 +41,7 @@ const (
 	verifC04LiveSame     = 0
 	verifC04LiveReplaced = 1
 	verifC04LiveGone     = 2
-	verifC04LiveRival    = 3 // cache says orphan, meanwhile another controller adopted it
+	verifC04LiveRival    = 3 // meanwhile another controller adopted it (cached orphan) or took it over (cached as ours)
 
 	verifC04ParentSame     = 0
 	verifC04ParentDeleting = 1
@@ -135,6 +135,10 @@ func verifC04DrawKid(i int, full bool, revision bool, selVal string, cachedDelet
 		case !full:
 			k.live = verifC04Pick("live"+n, 2)
 		case k.owner == verifC04Orphan:
+			k.live = verifC04Pick("live"+n, 4)
+		case !revision:
+			// an owned child due for release: since the cache was filled it may also
+			// have been released by someone else and taken over by another controller
 			k.live = verifC04Pick("live"+n, 4)
 		default:
 			k.live = verifC04Pick("live"+n, 3)
@@ -244,7 +248,8 @@ func verifC04Child(k *verifC04Kid, uid string, withRival bool) *unstructured.Uns
 	if k.canary {
 		env.SetLabel(o, "track", "canary")
 	}
-	if refs := verifC04RefMaps(verifC04Refs(k, k.owner == verifC04Ours, withRival)); len(refs) > 0 {
+	// (a rival takes an object over: our controller reference is gone then)
+	if refs := verifC04RefMaps(verifC04Refs(k, k.owner == verifC04Ours && !withRival, withRival)); len(refs) > 0 {
 		o.Object["metadata"].(map[string]interface{})["ownerReferences"] = refs
 	}
 	if k.deleting {
@@ -397,6 +402,9 @@ func VerifC04_ClaimChildren() {
 				rt.Cover("release/live-child-replaced")
 			case verifC04LiveGone:
 				rt.Cover("release/live-child-gone")
+			case verifC04LiveRival:
+				// no longer ours: nothing to release, nothing is written
+				rt.Cover("release/live-child-already-taken-over")
 			}
 		case verifC04Orphan:
 			if cachedDeleting {
